@@ -75,6 +75,31 @@ def model_phase(prop, tier, wd, info):
     return attacks
 
 
+def apalache_phase(prop, wd, info):
+    """Unbounded epochs: the inductive invariant of spec/apalache/Watermark.tla (real uint64 / int64 constants)."""
+    mod = os.path.join(SPEC, "apalache", "Watermark.tla")
+    ok0, _, _ = apalache(mod, dict(Guard=True), "Init", "IndInv", 0, wd, "apa_init")
+    ok1, _, _ = apalache(mod, dict(Guard=True), "IndInit", "IndInv", 1, wd, "apa_step")
+    if not (ok0 and ok1):
+        raise Inconclusive("Apalache: IndInv of Watermark.tla is not inductive for the shipped design")
+    # non-vacuity: the same obligation fails for the pre-fix design, with real values
+    okm, viol, states = apalache(mod, dict(Guard=False), "IndInit", "IndInv", 1, wd, "apa_mut", next_="Att" if prop == "C01" else "Prop")
+    if not viol:
+        raise Inconclusive("Apalache: the unguarded design satisfies IndInv - the invariant is too weak")
+    info["model_runs"].append(dict(module="apalache/Watermark", obligations=["Init => IndInv", "IndInv /\\ Next => IndInv'"], discharged=2,
+                                   unguarded_design_counterexample=True))
+    info["mutants"].append(dict(mutant="Watermark Guard=FALSE (Apalache)", killed_by=["IndInv"]))
+    concrete = []
+    if states:
+        last = states[-1]
+        big = lambda v: int(v["#bigint"]) if isinstance(v, dict) else int(v)
+        for m in last["relA"]["#set"]:
+            concrete.append(dict(kind="att", s=big(m["s"]), t=big(m["t"])))
+        for m in last["relP"]["#set"]:
+            concrete.append(dict(kind="prop", slot=big(m["slot"])))
+    return concrete
+
+
 def attack_from_trace(trace):
     if not trace:
         return None
@@ -305,6 +330,38 @@ def validate(lines, invariants, maxi, wd, name="SeqTrace"):
     raise Inconclusive("trace validation failed to run: %s" % r.error)
 
 
+def binding_selftest(prop, lines, index, maxi, wd):
+    """Corrupt one recorded field of an accepted trace: the layer-P specification must reject it (else it constrains nothing)."""
+    inv = PROPS[prop]["trace_inv"]
+    want = {"C01": "att", "C02": "prop", "C05": "gen", "C09": None}[prop]
+    for a, b, sid in index:
+        seg = [json.loads(json.dumps(x)) for x in lines[a - 1:b]]
+        rel = [x for x in seg if x["ev"] == "Release" and (want is None or x["kind"] == want)]
+        if not rel:
+            continue
+        if prop in ("C01", "C02"):
+            twin = dict(rel[0])
+            twin["root"] = twin["root"] + "x"
+            twin["r"] = "corrupt"
+            seg.append(twin)
+        elif prop == "C05":
+            rel[0]["dom"] = "att"
+        else:
+            wf = {x["r"] for x in seg if x["ev"] == "Invoke" and x.get("wf")}
+            done = None
+            for x in seg:
+                if x["ev"] == "Respond" and x["r"] in wf and "SUCCEEDED" in x["res"] and done is None:
+                    i_ = x["res"].index("SUCCEEDED")
+                    x["res"][i_], x["sig"][i_] = "DENIED", False
+                    done = (x["r"], i_)
+            if done is None:
+                continue
+            seg = [x for x in seg if not (x["ev"] == "Release" and x["r"] == done[0] and x["i"] == done[1])]
+        ok, violated, pos, r = validate(seg, inv, maxi, wd, name="SeqTraceSelf")
+        return dict(corrupted_trace_rejected=not ok, by=violated)
+    return dict(corrupted_trace_rejected=None, note="no suitable release in the recorded traces")
+
+
 def locate(index, pos):
     for a, b, sid in index:
         if a <= pos - 1 <= b + 1:
@@ -322,6 +379,7 @@ def run(prop, tier, seed):
     drift = []
     try:
         attacks = model_phase(prop, tier, wd, info)
+        apa = apalache_phase(prop, wd, info) if prop in ("C01", "C02") else []
         maxi = 3
         table = gen_table(maxi, wd)
         concs = concretisations(maxi, seed, n_random=1 if tier == "quick" else 3)
@@ -392,6 +450,22 @@ def run(prop, tier, seed):
             b.flush()
             builders.append(b)
 
+        if apa:
+            # the released messages of the Apalache counterexample (real uint64 values) followed by their conflicting twins
+            vals = sorted({0} | {v for m in apa for v in ([m["s"], m["t"]] if m["kind"] == "att" else [m["slot"]])} | {2 ** 64 - 1})
+            while len(vals) < 2 * (maxi + 1):
+                vals.append(vals[-1])
+            ab = Builder(prop + "apa", "apalache-values", [str(v) for v in vals], maxi)
+            idx = {v: i for i, v in enumerate(vals)}
+            for m in apa:
+                if m["kind"] == "att" and prop == "C01":
+                    ab.add_history(None, [dict(op="att", s=idx[m["s"]], t=idx[m["t"]], root="A"), dict(op="att", s=idx[m["s"]], t=idx[m["t"]], root="B", by="key")], None)
+                    ab.add_history(None, [dict(op="att", s=idx[m["s"]], t=idx[m["t"]], root="A"), dict(op="att", s=idx[m["s"]], t=idx[m["t"]], root="B")], None, batchable=True)
+                if m["kind"] == "prop" and prop == "C02":
+                    ab.add_history(None, [dict(op="prop", slot=idx[m["slot"]], root="A"), dict(op="prop", slot=idx[m["slot"]], root="B")], None)
+            ab.flush()
+            if ab.scenarios:
+                builders.append(ab)
         lines, index, nsc, nreq = [], [], 0, 0
         compared = 0
         for b in builders:
@@ -407,6 +481,9 @@ def run(prop, tier, seed):
         info["states"] += r.distinct
         info["transitions"] += r.generated
         sample_trace = lines[index[0][0] - 1:index[0][0] + 11] if index else []
+        selftest = binding_selftest(prop, lines, index, maxi, wd) if ok else {}
+        if ok and selftest.get("corrupted_trace_rejected") is False:
+            raise Inconclusive("binding self-test failed: a corrupted trace was accepted by SeqTrace (%s)" % selftest)
         if not ok:
             sid = locate(index, pos) if pos else None
             sc, smeta, sfloors = None, None, None
@@ -438,7 +515,7 @@ def run(prop, tier, seed):
                             dict(kind="attack-histories", items=attacks[:4])],
                    model_runs=info["model_runs"], mutants=info["mutants"], mutants_expected=len(p["mutants"]),
                    mutants_killed=len(info["mutants"]), requests_replayed=nreq, outcomes_compared_with_model=compared,
-                   trace_events_validated=len(lines), concretisations=[c[0] for c in concs], drift=drift[:20],
+                   trace_events_validated=len(lines), binding_selftest=selftest, concretisations=[c[0] for c in concs], drift=drift[:20],
                    drift_count=len(drift), exhaustive=(tier != "quick"),
                    checker_cmd="tlc SlashSeq / SlashTable / SlashSeqSim / SeqTrace (see lib/seqfamily.py)")
         write_evidence(prop, tier, seed, "model_checking", cov, time.time() - t0, violations=len(verdict.violations),
